@@ -205,6 +205,7 @@ fn main() {
         "sigreset" => suites::signal::run_reset(&ctx),
         "sighostile" => suites::signal::run_hostile(&ctx),
         "sigseq" => suites::signal::run_seq(&ctx),
+        "sigphase" => suites::signal::run_phase(&ctx),
         "cfgfuzz" => suites::config::run(&ctx),
         "app" => suites::app::run_app(&ctx),
         "appfault" => suites::app::run_fault(&ctx),
